@@ -47,6 +47,7 @@ type AVal struct {
 	Bits  BitVec // AInt (bool: width 1)
 	Path  string // APtr: the cell pointed to; ASlice/AStr: base object; AUnknown: a name
 	Lo    int    // ASlice/AStr: index of element 0 inside the base (-1: unknown)
+	LoBits BitVec // ASlice with Lo == -1: the index of element 0 as an abstract integer (a symbolic offset), when it has one
 	Len   int    // ASlice/AStr: length (-1: unknown)
 	LenName string // ASlice of unknown length: canonical name of the length, when it has one
 	Sym   bool   // APtr: the path contains a symbolic index
@@ -636,6 +637,13 @@ type aframe struct {
 	phiSrc map[*ssa.Phi]ssa.Value
 	// backs: how often each loop header was reached over a back edge in this activation (copy on write)
 	backs map[*ssa.BasicBlock]int
+	// symbolic loop iteration (Exec.SymLoop): the header whose phis were replaced by names, what
+	// replaced them, their values on entry, and where the iteration began in the path's record
+	symHeader *ssa.BasicBlock
+	symPhi    map[*ssa.Phi]AVal
+	symInit   map[string]AVal
+	symTrace  int
+	symConds  int
 }
 
 type astate struct {
@@ -675,6 +683,29 @@ func (s *astate) clone() *astate {
 		n.frames = append(n.frames, &nf)
 	}
 	return n
+}
+
+// ALoopIter is one way through the body of a symbolically iterated loop, back to its header.
+type ALoopIter struct {
+	Fn     *ssa.Function
+	Header *ssa.BasicBlock
+	Init   map[string]AVal // loop variable -> value on entry to the loop (first time)
+	Sym    map[string]AVal // loop variable -> the name it has during the iteration
+	Next   map[string]AVal // loop variable -> value carried into the next iteration
+	Conds  []string        // conditions assumed during the iteration
+	Facts  map[string][2]uint64
+	SFacts map[string][2]int64
+	Nils   map[string]bool
+	Trace  []AEvent // calls made during the iteration
+	Mem    *AMem
+}
+
+// PhiVar names a loop variable: the source-level name when the phi has one.
+func PhiVar(p *ssa.Phi) string {
+	if p.Comment != "" {
+		return p.Comment
+	}
+	return p.Name()
 }
 
 // AOutcome is one way through the analysed function.
@@ -724,6 +755,15 @@ type Exec struct {
 	// in Cut (an under-approximation the rule has to justify: later iterations repeat the last).
 	LoopBound int
 	Cut       int
+	// SymLoop selects loops (by function and header block) to be analysed by ONE iteration in
+	// which the loop-carried values (the header's phis) are fresh names φ<var>: every way through
+	// the body that returns to the header is recorded in Iters with what it carries into the next
+	// iteration, and is not followed further; ways out of the loop continue to the function's end
+	// as ordinary outcomes. What is read off Iters therefore holds for every iteration, provided
+	// the body keeps its loop-carried state in those values: a store inside the loop to memory
+	// that outlives it is reported in Unsound.
+	SymLoop func(fn *ssa.Function, header *ssa.BasicBlock) bool
+	Iters   []ALoopIter
 	// Unsound collects the places where the abstraction had to ignore an effect (store through
 	// an unknown pointer, defer, go, …); a rule that needs exactness refuses when non-empty.
 	Unsound []string
@@ -928,6 +968,9 @@ func (ex *Exec) run(s *astate) ([]*astate, *AOutcome, error) {
 			}
 			if k, ok := cv.ConstVal(); ok {
 				ex.jump(fr, k == 0)
+				if ex.SymLoop != nil && ex.arrive(s, fr) {
+					return []*astate{}, nil, nil
+				}
 				continue // (a loop whose test folds is unrolled whatever LoopBound says)
 			}
 			if ex.Merge && cv.K == AInt && len(cv.Bits) == 1 && cv.Bits[0].Kind == BSrc {
@@ -946,16 +989,16 @@ func (ex *Exec) run(s *astate) ([]*astate, *AOutcome, error) {
 			ex.jump(t.frames[len(t.frames)-1], false)
 			ex.jump(f.frames[len(f.frames)-1], true)
 			forks := []*astate{}
-			if !ex.arrive(f.frames[len(f.frames)-1]) {
+			if !ex.arrive(f, f.frames[len(f.frames)-1]) {
 				forks = append(forks, f)
 			}
-			if !ex.arrive(t.frames[len(t.frames)-1]) {
+			if !ex.arrive(t, t.frames[len(t.frames)-1]) {
 				forks = append(forks, t)
 			}
 			return forks, nil, nil
 		case *ssa.Jump:
 			fr.pred, fr.block, fr.pc = fr.block, fr.block.Succs[0], 0
-			if ex.arrive(fr) {
+			if ex.arrive(s, fr) {
 				return []*astate{}, nil, nil
 			}
 			continue
@@ -1199,6 +1242,59 @@ func (ex *Exec) refine(t, f *astate, fr *aframe, cond ssa.Value) {
 			}
 		}
 	}
+	// a value assembled from several sources (a big-endian word of two octets) compared with a
+	// constant: on the equal side every part has its share of the constant
+	if op == token.EQL || op == token.NEQ {
+		val, kb := l.Bits, r.Bits
+		if _, isK := constOfBits(val); isK {
+			val, kb = kb, val
+		}
+		if kc, isK := constOfBits(kb); isK {
+			if _, plain := plainSource(val); !plain && !hasMixBits(val) {
+				eq := t
+				if op == token.NEQ {
+					eq = f
+				}
+				type part struct {
+					name string
+					v    uint64
+				}
+				var parts []part
+				okAll := true
+				for i := 0; i < len(val) && okAll; {
+					x := val[i]
+					switch x.Kind {
+					case BZero, BOne:
+						i++
+					case BSrc:
+						if x.More != "" || x.Neg {
+							okAll = false
+							break
+						}
+						n := 0
+						for i+n < len(val) && val[i+n].Kind == BSrc && val[i+n].More == "" && !val[i+n].Neg && val[i+n].Src == x.Src && val[i+n].Idx == x.Idx+n {
+							n++
+						}
+						name, okN := plainSource(append(append(BitVec(nil), val[i:i+n]...), Bit{Kind: BZero}))
+						if !okN || n >= 63 {
+							okAll = false
+							break
+						}
+						parts = append(parts, part{name, (kc >> uint(i)) & (1<<uint(n) - 1)})
+						i += n
+					default:
+						okAll = false
+					}
+				}
+				if okAll && len(parts) >= 1 {
+					for _, pt := range parts {
+						eq.setRange(pt.name, false, int64(pt.v), int64(pt.v))
+					}
+					return
+				}
+			}
+		}
+	}
 	src, okS := plainSource(l.Bits)
 	k, okK := constOfBits(r.Bits)
 	if !okS || !okK {
@@ -1278,8 +1374,14 @@ func (ex *Exec) refine(t, f *astate, fr *aframe, cond ssa.Value) {
 		}
 	case token.EQL:
 		apply(t, k, k)
+		if k <= math.MaxInt64 {
+			f.exclude(src, int64(k))
+		}
 	case token.NEQ:
 		apply(f, k, k)
+		if k <= math.MaxInt64 {
+			t.exclude(src, int64(k))
+		}
 	}
 }
 
@@ -1587,8 +1689,14 @@ func (ex *Exec) jump(fr *aframe, second bool) {
 
 // arrive is called when fr has just moved to a new block; it reports whether the state is to be
 // dropped because the block is a loop header reached over a back edge once too often.
-func (ex *Exec) arrive(fr *aframe) bool {
-	if ex.LoopBound <= 0 || fr.pred == nil {
+func (ex *Exec) arrive(s *astate, fr *aframe) bool {
+	if fr.pred == nil {
+		return false
+	}
+	if ex.SymLoop != nil && ex.arriveSym(s, fr) {
+		return true
+	}
+	if ex.LoopBound <= 0 {
 		return false
 	}
 	b := fr.block
@@ -1614,6 +1722,102 @@ func (ex *Exec) arrive(fr *aframe) bool {
 		return true
 	}
 	return false
+}
+
+func isLoopHeader(b *ssa.BasicBlock) bool {
+	for _, p := range b.Preds {
+		if b.Dominates(p) {
+			return true
+		}
+	}
+	return false
+}
+
+// arriveSym: entry to a selected loop replaces the header's phis by names; a return to that
+// header records the iteration and ends the path.
+func (ex *Exec) arriveSym(s *astate, fr *aframe) bool {
+	b := fr.block
+	back := b.Dominates(fr.pred)
+	if fr.symHeader == b && back {
+		it := ALoopIter{Fn: fr.fn, Header: b, Init: fr.symInit, Sym: map[string]AVal{}, Next: map[string]AVal{},
+			Conds: append([]string(nil), s.conds[fr.symConds:]...), Facts: s.facts, SFacts: s.sfacts, Nils: s.nils,
+			Trace: append([]AEvent(nil), s.trace[fr.symTrace:]...), Mem: s.mem}
+		for i, p := range b.Preds {
+			if p != fr.pred {
+				continue
+			}
+			for _, in := range b.Instrs {
+				ph, ok := in.(*ssa.Phi)
+				if !ok {
+					break
+				}
+				it.Sym[PhiVar(ph)] = fr.symPhi[ph]
+				it.Next[PhiVar(ph)] = ex.val(s, fr, ph.Edges[i])
+			}
+		}
+		ex.Iters = append(ex.Iters, it)
+		return true
+	}
+	if fr.symHeader != nil || back || !isLoopHeader(b) {
+		return false
+	}
+	for _, f := range s.frames {
+		if f.symHeader != nil {
+			return false // one symbolic loop per path: loops inside its body (also in callees) are unrolled
+		}
+	}
+	if !ex.SymLoop(fr.fn, b) {
+		return false
+	}
+	// first entry: remember what the loop starts from, then forget it
+	fr.symHeader, fr.symPhi, fr.symInit = b, map[*ssa.Phi]AVal{}, map[string]AVal{}
+	fr.symTrace, fr.symConds = len(s.trace), len(s.conds)
+	for i, p := range b.Preds {
+		if p != fr.pred {
+			continue
+		}
+		for _, in := range b.Instrs {
+			ph, ok := in.(*ssa.Phi)
+			if !ok {
+				break
+			}
+			fr.symInit[PhiVar(ph)] = ex.val(s, fr, ph.Edges[i])
+			v := unknownOf("φ"+PhiVar(ph), ph.Type(), false)
+			registerSources(v)
+			fr.symPhi[ph] = v
+		}
+	}
+	// memory the body writes is loop-carried state the names do not cover
+	for _, lb := range fr.fn.Blocks {
+		if !b.Dominates(lb) || !(lb == b || Reaches(lb, b)) {
+			continue
+		}
+		for _, in := range lb.Instrs {
+			if st, ok := in.(*ssa.Store); ok {
+				if al, isAl := rootAlloc(st.Addr); isAl && b.Dominates(al.Block()) && al.Block() != b {
+					continue // an object created inside the body
+				}
+				ex.Unsound = append(ex.Unsound, fmt.Sprintf("%s: the symbolically iterated loop stores to memory (%s)", fr.fn.Name(), st.Addr.Name()))
+			}
+		}
+	}
+	return false
+}
+
+func rootAlloc(v ssa.Value) (*ssa.Alloc, bool) {
+	for i := 0; i < 8; i++ {
+		switch x := v.(type) {
+		case *ssa.Alloc:
+			return x, true
+		case *ssa.FieldAddr:
+			v = x.X
+		case *ssa.IndexAddr:
+			v = x.X
+		default:
+			return nil, false
+		}
+	}
+	return nil, false
 }
 
 // label renders a branch condition in the entry function's vocabulary where possible.
@@ -1707,6 +1911,9 @@ func (ex *Exec) eval(s *astate, fr *aframe, v ssa.Value) AVal {
 		s.mem.fresh[name] = true
 		return AVal{K: APtr, Path: name}
 	case *ssa.Phi:
+		if v, sym := fr.symPhi[x]; sym && fr.symHeader == fr.block {
+			return v
+		}
 		for i, p := range fr.block.Preds {
 			if p == fr.pred {
 				np := make(map[*ssa.Phi]ssa.Value, len(fr.phiSrc)+1)
@@ -1749,6 +1956,20 @@ func (ex *Exec) eval(s *astate, fr *aframe, v ssa.Value) AVal {
 		}
 		if k, ok := idx.ConstVal(); ok && lo >= 0 && !b.Sym {
 			return AVal{K: APtr, Path: fmt.Sprintf("%s[%d]", base, lo+int(int64(k)))}
+		}
+		if idx.K == AInt && len(idx.Bits) > 0 && len(idx.Bits) <= 64 && !hasMixBits(idx.Bits) && (lo >= 0 || b.LoBits != nil) {
+			idx = AVal{K: AInt, Bits: resize(idx.Bits, 64, isSigned(x.Index.Type()))}
+			// a nameable position: offset of the slice + index, in affine normal form
+			off := b.LoBits
+			if lo >= 0 {
+				off = constBits(uint64(lo), 64)
+			}
+			if sum := opaqueOp(token.ADD, off, idx.Bits, 64); !hasMixBits(sum.Bits) {
+				if k, isK := constOfBits(sum.Bits); isK && !b.Sym {
+					return AVal{K: APtr, Path: fmt.Sprintf("%s[%d]", base, int(int64(k)))}
+				}
+				return AVal{K: APtr, Path: fmt.Sprintf("%s[%s]", base, NameBits(sum.Bits)), Sym: true}
+			}
 		}
 		name := "?"
 		if idx.K == AInt {
@@ -1802,6 +2023,24 @@ func (ex *Exec) eval(s *astate, fr *aframe, v ssa.Value) AVal {
 		a := ex.val(s, fr, x.X)
 		switch x.Op {
 		case token.MUL:
+			if g, isG := x.X.(*ssa.Global); isG {
+				if st, isSl := x.Type().Underlying().(*types.Slice); isSl {
+					if elems, ok := constSliceOf(g); ok {
+						// a table: a slice variable that only ever holds its literal
+						obj := a.Path + "$lit"
+						if _, done := s.mem.cells[obj+"[0]"]; !done && len(elems) > 0 {
+							for i, e := range elems {
+								v := zeroOf(st.Elem())
+								if e != nil {
+									v = ex.val(s, fr, e)
+								}
+								s.mem.cells[fmt.Sprintf("%s[%d]", obj, i)] = v
+							}
+						}
+						return AVal{K: ASlice, Path: obj, Lo: 0, Len: len(elems), NonNil: true}
+					}
+				}
+			}
 			if a.K == APtr {
 				r := s.mem.Load(a.Path, x.Type())
 				registerSources(r)
@@ -1948,7 +2187,51 @@ func (ex *Exec) slice(s *astate, fr *aframe, x *ssa.Slice) AVal {
 			hi, hiK = int(k), true
 		}
 	}
+	// symbolic offsets: element 0 of the result is element (offset of b) + low of the base
+	var symLo BitVec
+	var symLen = -1
+	if bv := ex.val(s, fr, x.X); bv.K == ASlice || bv.K == APtr {
+		var baseOff BitVec
+		switch {
+		case bv.K == APtr, bv.Lo >= 0:
+			o := 0
+			if bv.K == ASlice {
+				o = bv.Lo
+			}
+			baseOff = constBits(uint64(o), 64)
+		case bv.LoBits != nil:
+			baseOff = bv.LoBits
+		}
+		lowBits := constBits(uint64(lo), 64)
+		if x.Low != nil && !loK {
+			if lv := ex.val(s, fr, x.Low); lv.K == AInt && len(lv.Bits) > 0 && len(lv.Bits) <= 64 {
+				lowBits = resize(lv.Bits, 64, isSigned(x.Low.Type()))
+			} else {
+				lowBits = nil
+			}
+		}
+		if baseOff != nil && lowBits != nil && (!loK || bv.Lo < 0) {
+			if sum := opaqueOp(token.ADD, baseOff, lowBits, 64); !hasMixBits(sum.Bits) {
+				symLo = sum.Bits
+				if x.High != nil {
+					if hv := ex.val(s, fr, x.High); hv.K == AInt && len(hv.Bits) > 0 && len(hv.Bits) <= 64 {
+						if d := opaqueOp(token.SUB, resize(hv.Bits, 64, isSigned(x.High.Type())), lowBits, 64); d.K == AInt {
+							if k, isK := constOfBits(d.Bits); isK && int64(k) >= 0 && k < 1<<31 {
+								symLen = int(k)
+							}
+						}
+					}
+				}
+			}
+		}
+	}
 	mk := func(kind AKind, base string, off, length int) AVal {
+		if symLo != nil && kind == ASlice {
+			if k, isK := constOfBits(symLo); isK {
+				return AVal{K: kind, Path: base, Lo: int(k), Len: symLen}
+			}
+			return AVal{K: kind, Path: base, Lo: -1, LoBits: symLo, Len: symLen}
+		}
 		nlo := -1
 		if loK && off >= 0 {
 			nlo = off + lo
@@ -2565,6 +2848,12 @@ func argName(v AVal) string {
 	case APtr:
 		return v.Path
 	case ASlice:
+		if v.Lo < 0 && v.LoBits != nil {
+			if v.Len >= 0 {
+				return fmt.Sprintf("%s[%s:+%d]", v.Path, NameBits(v.LoBits), v.Len)
+			}
+			return fmt.Sprintf("%s[%s:]", v.Path, NameBits(v.LoBits))
+		}
 		if v.Lo == 0 && v.Len < 0 {
 			return v.Path
 		}
@@ -2940,11 +3229,15 @@ func (ex *Exec) intrinsic(s *astate, name string, args []AVal, x *ssa.Call) (AVa
 		s.mem.Seqs[nm] = segs
 		return AVal{K: ASlice, Path: nm, Lo: 0, Len: -1, NonNil: true}, true
 	}
-	if strings.HasPrefix(m, "Uint") && len(args) == 2 && args[1].K == ASlice && args[1].Lo >= 0 {
+	if strings.HasPrefix(m, "Uint") && len(args) == 2 && args[1].K == ASlice && (args[1].Lo >= 0 || args[1].LoBits != nil) {
 		b := args[1]
 		out := make(BitVec, 8*n)
 		for i := 0; i < n; i++ {
-			c := s.mem.Load(fmt.Sprintf("%s[%d]", b.Path, b.Lo+i), u8)
+			cell := fmt.Sprintf("%s[%d]", b.Path, b.Lo+i)
+			if b.Lo < 0 {
+				cell = fmt.Sprintf("%s[%s]", b.Path, NameBits(opaqueOp(token.ADD, b.LoBits, constBits(uint64(i), 64), 64).Bits))
+			}
+			c := s.mem.Load(cell, u8)
 			registerSources(c)
 			if c.K != AInt || len(c.Bits) != 8 {
 				return AVal{}, false
@@ -3152,4 +3445,64 @@ func LinForm(b BitVec) (c int64, terms map[string]int64, ok bool) {
 		}
 	}
 	return cc, terms, true
+}
+
+func hasMixBits(b BitVec) bool {
+	for _, x := range b {
+		if x.Kind == BMix {
+			return true
+		}
+	}
+	return len(b) == 0
+}
+
+// LinFormOfName is LinForm for a named w-bit source (e.g. an index expression taken from a cell path).
+func LinFormOfName(name string, w int) (c int64, terms map[string]int64, ok bool) {
+	if name == "" {
+		return 0, nil, false
+	}
+	isNum := true
+	for _, r := range name {
+		if r < '0' || r > '9' {
+			isNum = false
+		}
+	}
+	if isNum {
+		var k int64
+		fmt.Sscanf(name, "%d", &k)
+		return k, map[string]int64{}, true
+	}
+	return LinForm(srcBitsNoReg(name, w))
+}
+
+// LinTerm is one non-constant operand of an affine normal form, with its bits.
+type LinTerm struct {
+	Name string
+	Bits BitVec
+	Coef int64
+}
+
+// LinFormBits is LinForm with the operands' bit vectors (to look inside an operand such as a
+// big-endian word of two cells).
+func LinFormBits(b BitVec) (c int64, terms []LinTerm, ok bool) {
+	cc, ts, ok := affineOf(b, 0)
+	if !ok {
+		return 0, nil, false
+	}
+	idx := map[string]int{}
+	for _, t := range ts {
+		if i, has := idx[t.name]; has {
+			terms[i].Coef += t.coef
+			continue
+		}
+		idx[t.name] = len(terms)
+		terms = append(terms, LinTerm{t.name, t.bits, t.coef})
+	}
+	var out []LinTerm
+	for _, t := range terms {
+		if t.Coef != 0 {
+			out = append(out, t)
+		}
+	}
+	return cc, out, true
 }
